@@ -66,7 +66,19 @@ pub fn run(case: &Value) -> Value {
         take(scanner.scan_mem(&input))
     };
     let mut lens = Map::new();
+    let mut ints = Map::new();
     for m in &res.modules {
+        if let boreal::module::Value::Object(o) = &m.dynamic_values {
+            let mut mi = Map::new();
+            for (k, v) in o {
+                if let boreal::module::Value::Integer(i) = v {
+                    mi.insert((*k).to_string(), json!(i));
+                }
+            }
+            if !mi.is_empty() {
+                ints.insert(m.module.get_name().into(), Value::Object(mi));
+            }
+        }
         let mut l = BTreeMap::new();
         modval::collect_lens(&m.dynamic_values, "", &mut l);
         if !l.is_empty() {
@@ -75,7 +87,7 @@ pub fn run(case: &Value) -> Value {
     }
     let matched: Vec<&str> = res.rules.iter().map(|r| r.name).collect();
     let logs = logs.lock().unwrap().clone();
-    json!({"rejected": rejected, "error": err, "matched": matched, "logs": logs, "lens": lens, "size": input.len(),
+    json!({"rejected": rejected, "error": err, "matched": matched, "logs": logs, "lens": lens, "ints": ints, "size": input.len(),
            "ms": t0.elapsed().as_millis() as u64})
 }
 
